@@ -130,6 +130,16 @@ def run(ck):
     for i in range(120 if thorough else 40):
         lines.append("0 1 2 50 | main=join;s1=try:1:n,sleep:60,try:2:n,sleep:60,try:3:n | randomt %d" % (ck.seed * 4099 + i))
         lines.append("1 2 2 50 | main=join,count;s1=try:1:p,sleep:80,fut:2:n;s2=sleep:70,try:3:n | randomt %d" % (ck.seed * 4111 + i))
+    # life-cycle cycles and long tasks (real pool only, judged by PoolTrace.tla): stop -> reset -> start with a submission after the
+    # restart on a pool whose initial size is its maximum (a worker lost during start() cannot be replaced); tasks that outlast
+    # stop()'s bounded polling while a worker is being added (stop() must still wait for them)
+    EXTRA = ["2 2 2 30000 | main=restart,join ; s1=sleep:200,fut:1:n,try:2:n",
+             "1 1 2 30000 | main=restart,restart,join ; s1=sleep:400,fut:1:n",
+             "1 2 2 30000 | main=stop,join ; s1=try:1:l,try:2:l",
+             "1 2 2 30000 | main=join,stop ; s1=try:1:l,fut:2:l ; s2=try:3:n"]
+    for i in range(2400 if thorough else 150):
+        for p in EXTRA:
+            lines.append("%s | %s %d" % (p, "random" if i % 3 else "randomt", ck.seed * 4127 + i))
     cp = os.path.join(ck.work, "cases.txt")
     open(cp, "w").write("\n".join(lines) + "\n")
     outp = os.path.join(ck.work, "pool.ndjson")
@@ -148,7 +158,8 @@ def run(ck):
                 hit = False
             ck.note("directed probe %r: submission held across stop() = %s" % (ln.split("|")[1].strip(), hit))
     # ---- real pool: preemption-bounded DFS
-    dfs = [(cases[0], 1, 2500), (cases[1], 1, 2500)] if not thorough else [(c, 2, 40000) for c in cases[:6]]
+    dfs = [(cases[0], 1, 2500), (cases[1], 1, 2500)] if not thorough else [(c, 2, 20000) for c in cases[:6]]
+    xdfs = [(EXTRA[0], 1, 800), (EXTRA[2], 1, 800)] if not thorough else [(p, 2, 8000) for p in EXTRA]
     for j, (case, bound, maxexec) in enumerate(dfs):
         init, maxt, cap, idle, life, subs = case
         outp = os.path.join(ck.work, "dfs%d.ndjson" % j)
@@ -158,6 +169,15 @@ def run(ck):
             raise vf.Infra("drv_s_pool dfs failed: " + out[-2000:])
         ck.note("dfs %s bound=%d: %s" % (prog_text(life, subs), bound, out.strip()))
         judge(ck, outp, None, "dfs%d" % j, case="%d %d %d %d | %s | dfs %d" % (init, maxt, cap, idle, prog_text(life, subs), bound))
+    for j, (p, bound, maxexec) in enumerate(xdfs):
+        cfgs, prog = [x.strip() for x in p.split("|")]
+        init, maxt, cap, idle = cfgs.split()
+        outp = os.path.join(ck.work, "xdfs%d.ndjson" % j)
+        rc, out = vf.run_driver("drv_s_pool", ["dfs", init, maxt, cap, idle, prog, bound, maxexec, outp, 16], timeout=3000)
+        if rc != 0:
+            raise vf.Infra("drv_s_pool dfs failed: " + out[-2000:])
+        ck.note("dfs %s bound=%d: %s" % (prog, bound, out.strip()))
+        judge(ck, outp, None, "xdfs%d" % j, case="%s | dfs %d" % (p, bound))
 
 
 def judge(ck, trace_path, lines, name, case=None):
